@@ -18,3 +18,8 @@ CHECKS["C16"] = dict(
     text="Priors.tla states support and exact log-density of the seven families in a canonical symbolic form (rational coefficients over ln p, ln 2pi, lnln, lnsq atoms); TLC checks density identities that pin every normalising constant on all 3810 single-prior grid points and generates random vectors of 1..4 priors with positive-flags; every case is evaluated with the real PIDInterface.check_prior (rejected <=> non-finite, else exact value to 1e-9) and rejected vectors are also pushed through InferenceSetup.cost_function (-inf).",
     ref="DESIGN.md 5 C16", technique="TLA+ spec of supports and symbolic log-densities, identities model-checked by TLC; spec states replayed as evaluations of check_prior / cost_function",
     note="Integer gamma/beta shapes; gaussian within 12 sigma; boundary points with an open/closed convention are generated but not judged; atoms are mapped to floats with one math.log each.")
+
+CHECKS["C03"] = dict(
+    text="Crn.tla defines the immediate and delayed stoichiometric matrices twice - by name (products minus reactants with multiplicity) and by the code's index construction (first-mention species order, per-mention update dictionaries, matrix fill) - and TLC checks that the second read through the index map is the first for every program of the bounded family and every declaration list; all programs (exhaustive one-reaction family x 16 declaration lists, random programs with up to 3 reactions, every law and delay type, sides up to 4) are built through the public API and update arrays, delay update arrays and the derivative at rational probe states are compared by species name with the spec's exact values; a referenced-but-unset parameter must make initialisation and simulation fail.",
+    ref="DESIGN.md 5 C03", technique="TLA+ spec (Crn.tla, CrnGen.tla) with a name-level and an index-level definition, refinement checked by TLC; generated programs replayed through Model construction",
+    note="Derivative compared to 1e-9 at exactly representable states; time-dependent general rates are covered through C02/C04.")
